@@ -147,6 +147,8 @@ def f32_evidence(m, limit=6):
     def nodes(ns, where):
         for n in ns:
             for a in n.attribute:
+                if a.name in ("epsilon",):
+                    continue
                 if a.type == AP.FLOAT and n.op_type != "Constant" and rounded_decimal(a.f):
                     out.append(f"{where}:{n.op_type}({n.name}).{a.name} = {a.f!r}: float attribute = float32({np.float32(a.f)})")
                 if a.type == AP.FLOATS and n.op_type != "Constant" and any(rounded_decimal(x) for x in a.floats):
@@ -347,8 +349,13 @@ def _jaxpr_float_dtypes(closed):
     return sorted(found)
 
 
-def _numeric(fn, m, key, vals, params, seed):
-    """ORT(model) vs the callable evaluated by JAX with x64 enabled, on float64 inputs.  Returns a dict of numbers."""
+NARROW = ("float32", "float16", "bfloat16", "complex64")
+
+
+def _numeric(fn, m, key, vals, params, seed, spec_dtypes=()):
+    """ORT(model) vs the callable evaluated by JAX with x64 enabled, on float64 inputs.  Returns a dict of numbers.
+    In scope only when the testcase does not itself ask for a narrower float input (a float32 spec makes the JAX x64
+    evaluation a float32 computation: weak-typed literals follow the input) and the x64 jaxpr is float64-only."""
     import numpy as np
     import jax
     import jax.numpy as jnp
@@ -356,6 +363,8 @@ def _numeric(fn, m, key, vals, params, seed):
     TP = onnx.TensorProto
     if params:
         return {"status": "skip:input_params"}
+    if any(d in NARROW for d in spec_dtypes if d):
+        return {"status": "skip:spec-asks-narrower-float"}
     g = m.graph
     init = {i.name for i in g.initializer}
     ins = [i for i in g.input if i.name not in init]
@@ -426,6 +435,12 @@ def _numeric(fn, m, key, vals, params, seed):
     # ---- model side: onnxruntime; where it has no double kernel for an operator, the onnx reference evaluator
     feed = {i.name: x for i, x in zip(ins, xs)}
     evaluator = "onnxruntime"
+    got2 = None
+
+    def reference():
+        from onnx.reference import ReferenceEvaluator
+        return ReferenceEvaluator(m).run(None, feed)
+    small = m.ByteSize() < 64_000_000
     try:
         import onnxruntime as ort
         so = ort.SessionOptions()
@@ -433,17 +448,23 @@ def _numeric(fn, m, key, vals, params, seed):
         sess = ort.InferenceSession(m.SerializeToString(), so, providers=["CPUExecutionProvider"])
         got = sess.run(None, feed)
     except Exception as e:  # noqa
-        msg = f"{type(e).__name__}: {str(e)[:300]}"
-        if "NOT_IMPLEMENTED" in msg and m.ByteSize() < 64_000_000:
+        msg = f"{type(e).__name__}: {str(e)[:400]}"
+        if "NOT_IMPLEMENTED" in msg and small:
             try:
-                from onnx.reference import ReferenceEvaluator
-                got = ReferenceEvaluator(m).run(None, feed)
+                got = reference()
                 evaluator = "onnx-reference"
             except Exception as e2:  # noqa
                 return {"status": "skip:no-evaluator", "detail": msg[:160] + " || " + f"{type(e2).__name__}: {str(e2)[:120]}"}
+        elif "tensor(float)" in msg and "tensor(double)" in msg:
+            # the double-precision model mixes FLOAT and DOUBLE operands: confirm with the onnx checker (independent of ORT)
+            try:
+                onnx.checker.check_model(m, full_check=True)
+                chk = "ok"
+            except Exception as e3:  # noqa
+                chk = f"{type(e3).__name__}: {str(e3)[:200]}"
+            return {"status": "model-mixes-float-and-double", "detail": msg, "checker": chk}
         else:
-            kind = "type" if re.search(r"[Tt]ype|inconsistent", msg) else "other"
-            return {"status": f"model-does-not-load:{kind}", "detail": msg}
+            return {"status": "skip:model-does-not-load(other)", "detail": msg}
     if len(ref) != len(got):
         return {"status": "skip:arity-outputs"}
     worst = {"err": 0.0, "sens": 0.0, "out": -1}
@@ -482,8 +503,21 @@ def _numeric(fn, m, key, vals, params, seed):
             worst = {"err": err, "sens": sens, "out": k}
     if n_float == 0:
         return {"status": "skip:no-float-output", "notes": notes}
+    xeval = None
+    if worst["err"] > BAND_LO and evaluator == "onnxruntime" and small:
+        # is the deviation a property of the MODEL (both evaluators compute the same function) or of one kernel?
+        try:
+            got2 = reference()
+            k = worst["out"]
+            a, b = np.asarray(got[k], dtype=np.float64), np.asarray(got2[k], dtype=np.float64)
+            fin = np.isfinite(a) & np.isfinite(b)
+            sc = float(np.max(np.abs(a[fin]))) if fin.any() else 1.0
+            xeval = float(np.max(np.abs(a[fin] - b[fin]))) / (sc if sc > 0 else 1.0) if fin.any() else 0.0
+        except Exception as e:  # noqa
+            xeval = None
+            notes.append(f"reference-evaluator-failed:{type(e).__name__}")
     return {"status": "compared", "err": worst["err"], "sens": worst["sens"], "out": worst["out"], "notes": notes,
-            "evaluator": evaluator, "n_inputs_f64": sum(1 for d in dts if d == np.float64), "from_values": vals is not None,
+            "evaluator": evaluator, "xeval": xeval, "n_inputs_f64": sum(1 for d in dts if d == np.float64), "from_values": vals is not None,
             "symbolic_dims": len(symdim)}
 
 
@@ -534,7 +568,7 @@ def export_worker(job):
         except Exception as e:  # noqa
             out["f32_evidence"] = [f"(evidence scan failed: {type(e).__name__})"]
         try:
-            out["num"] = _numeric(fn, m, key, vals, params, seed)
+            out["num"] = _numeric(fn, m, key, vals, params, seed, out.get("spec_dtypes") or ())
         except Exception as e:  # noqa
             out["num"] = {"status": "skip:harness-error", "detail": f"{type(e).__name__}: {str(e)[:200]}"}
         out["flag_after_numeric"] = bool(jax.config.jax_enable_x64)
@@ -848,6 +882,51 @@ def coarse(where):
     return ":".join(parts[:2])
 
 
+def judge_double(r, fs):
+    """decision for one double-precision export.  r = worker record, fs = first single-precision item of the model
+    (Coq first_single) or None.  Returns (category, violation key or None, message)."""
+    num = r.get("num")
+    if not num:
+        return ("skip:export-failed" if not r.get("term") else "skip:none"), None, ""
+    st = num["status"]
+    evidence = ([f"first single-precision item (Coq first_single): {fs}"] if fs else []) + list(r.get("f32_evidence") or [])
+    if st == "model-mixes-float-and-double":
+        # the float64-only callable was exported to a model whose operands mix FLOAT and DOUBLE (rejected by ORT and by the
+        # onnx checker): the single-precision item is not even hidden, it makes the model unusable
+        if fs and num.get("checker") not in (None, "ok"):
+            return (st, f"mixed-precision-invalid:{r['key']}",
+                    f"enable_double_precision=True export of {r['key']} (float64-only under JAX x64) mixes FLOAT and DOUBLE operands "
+                    f"and does not load: {num['detail'][:260]} | onnx checker: {num['checker'][:160]} | {evidence[0]}")
+        return st + "(unconfirmed)", None, ""
+    if st != "compared":
+        return st, None, ""
+    err, sens = num["err"], num["sens"]
+    dt_notes = [n for n in num.get("notes", []) if "model-dtype" in n]
+    if err <= BAND_LO and not dt_notes:
+        return "agree<=1e-9", None, ""
+    if dt_notes and fs:
+        return ("single-precision-output", f"hidden-f32:{r['key']}",
+                f"enable_double_precision=True export of {r['key']}: JAX x64 gives float64 (float64-only jaxpr) but the model output is "
+                f"single precision ({dt_notes}); rel. difference {err:.3g}; {evidence[:2]}")
+    if err > BAND_HI:
+        return "differs>1e-5(not this property)", None, ""
+    if err <= BAND_LO:
+        return "agree<=1e-9", None, ""
+    if err <= 1e5 * max(sens, 1e-16):
+        return "explained-by-conditioning", None, ""
+    # 1e-9 < err <= 1e-5, far beyond what double rounding noise explains.  Charged to the MODEL only when the model carries a
+    # value that went through float32 and the deviation is not an artefact of one evaluator's kernel
+    if not evidence:
+        return "band-but-no-model-evidence(evaluator kernel accuracy)", None, ""
+    if num.get("evaluator") == "onnxruntime" and (num.get("xeval") is None or num["xeval"] > 1e-10):
+        return "band-but-evaluators-disagree-or-single-evaluator", None, ""
+    return ("hidden-f32", f"hidden-f32:{r['key']}",
+            f"enable_double_precision=True export of {r['key']}: the callable is float64-only under JAX x64, but the model "
+            f"({num.get('evaluator')}" + (f", onnx reference evaluator agrees with it to {num['xeval']:.1g}" if num.get("xeval") is not None else "")
+            + f") differs from JAX(x64) by relative {err:.3g} on output {num['out']} (1-ulp input sensitivity {sens:.3g}); "
+            f"single-precision evidence in the model: {evidence[:3]}")
+
+
 # =============================================================================== run
 def run(ctx):
     from multiprocessing import get_context
@@ -959,45 +1038,30 @@ def run(ctx):
                         f"requested by the testcase) contains a double-precision item: {where}"
                         f" ({len(r['py_hits'])} items: {r['py_hits'][:4]})",
                         {"kind": "single", "job": [r["kind"], r["ident"]], "key": r["key"], "where": where})
-    # ---- (c) double precision: ORT vs JAX(x64)
+    # ---- (c) double precision: model (ORT / onnx reference evaluator) vs JAX(x64)
     stats = {}
-    compared = band = gross = illcond = 0
+    compared = band = invalid = 0
     worst_ok = 0.0
     n_single_items = 0
     for r in doubles:
-        if r.get("verdict") is not None and r["verdict"][1] is not None:
-            n_single_items += 1
-        num = r.get("num")
-        if not num:
-            st = "skip:export-failed" if not r.get("term") else "skip:none"
-            stats[st] = stats.get(st, 0) + 1
-            continue
-        st = num["status"]
-        if st != "compared":
-            stats[st] = stats.get(st, 0) + 1
-            continue
-        compared += 1
-        err, sens = num["err"], num["sens"]
-        dt_notes = [n for n in num.get("notes", []) if "model-dtype" in n]
         fs = r["verdict"][1] if r.get("verdict") else None
-        if err <= BAND_LO and not dt_notes:
-            worst_ok = max(worst_ok, err)
-            stats["agree<=1e-9"] = stats.get("agree<=1e-9", 0) + 1
-            continue
-        explained = err <= 1e5 * max(sens, 1e-16)
-        if dt_notes or (BAND_LO < err <= BAND_HI and not explained):
-            band += 1
-            ctx.violate(f"hidden-f32:{r['key']}",
-                        f"enable_double_precision=True export of {r['key']}: the callable is float64-only under JAX x64, but "
-                        f"ORT(model) differs from JAX(x64) by relative {err:.3g} on output {num['out']} (1-ulp input sensitivity "
-                        f"{sens:.3g}); single-precision item in the model: {fs}; notes {num.get('notes')}",
-                        {"kind": "double", "job": [r["kind"], r["ident"]], "key": r["key"], "err": err, "sens": sens})
-        elif explained and err <= BAND_HI:
-            illcond += 1
-            stats["explained-by-conditioning"] = stats.get("explained-by-conditioning", 0) + 1
-        else:
-            gross += 1
-            stats["differs>1e-5(not this property)"] = stats.get("differs>1e-5(not this property)", 0) + 1
+        if fs is not None:
+            n_single_items += 1
+        cat, key, what = judge_double(r, fs)
+        stats[cat] = stats.get(cat, 0) + 1
+        num = r.get("num") or {}
+        if num.get("status") == "compared":
+            compared += 1
+            if cat == "agree<=1e-9":
+                worst_ok = max(worst_ok, num["err"])
+        if key:
+            band += key.startswith("hidden-f32")
+            invalid += key.startswith("mixed-precision-invalid")
+            ctx.violate(key, what, {"kind": "double", "job": [r["kind"], r["ident"]], "key": r["key"],
+                                    "err": num.get("err"), "sens": num.get("sens")})
+    gross = stats.get("differs>1e-5(not this property)", 0)
+    illcond = stats.get("explained-by-conditioning", 0)
+    unconfirmed = sum(v for k, v in stats.items() if k.startswith("band-but"))
 
     # ---- (d) flag before/after
     flag_bad = []
@@ -1057,9 +1121,11 @@ def run(ctx):
                            "double_violations": len(single_viol)},
         "double_exports": {"attempted": len(doubles), "export_errors": n_err_d, "numerically_compared": compared,
                            "agree_within_1e-9": stats.get("agree<=1e-9", 0), "max_rel_err_among_agreeing": worst_ok,
-                           "band_1e-9_1e-5_violations": band, "explained_by_conditioning": illcond, "gross_mismatch_other_property": gross,
+                           "hidden_f32_violations": band, "mixed_precision_invalid_violations": invalid,
+                           "band_not_charged_to_model": unconfirmed,
+                           "explained_by_conditioning": illcond, "gross_mismatch_other_property": gross,
                            "models_with_single_precision_items": n_single_items,
-                           "skipped": {k: v for k, v in sorted(stats.items()) if k.startswith("skip")}},
+                           "other": {k: v for k, v in sorted(stats.items()) if k != "agree<=1e-9"}},
         "graphs_scanned": sum(r.get("n_graphs", 0) for r in exported),
         "function_bodies_scanned": sum(r.get("n_functions", 0) for r in exported),
         "flag_calls": n_flag, "flag_outcomes_seen": outcomes, "manager_runs": len(mg),
@@ -1096,10 +1162,11 @@ def replay(path):
             bad = bool(out.get("py_hits") or out.get("py_extra"))
             print("DOUBLE items in the single-precision export:", out.get("py_hits"), out.get("py_extra"))
             return 1 if bad else 0
-        num = out.get("num") or {}
-        bad = num.get("status") == "compared" and (num["err"] > BAND_LO)
-        print("relative error ORT vs JAX(x64):", num)
-        return 1 if bad else 0
+        fs = out["py_hits"][0] if out.get("py_hits") else None
+        cat, key, what = judge_double(out, fs)
+        print("category:", cat)
+        print(what)
+        return 1 if key else 0
     if kind == "flag":
         obs = flag_worker((0, [], [(False, False), (False, True), (True, False), (True, True)], False))
         bad = [o for o in obs["to_onnx"] if o["after"] != o["prev"]] + [o for o in obs["nested"] if o["after"] != o["prev"]]
